@@ -34,6 +34,28 @@ kubernetesCustomResourceConversion:
     toVersion: v3
 `
 
+// the same two rules declared by ONE binding (a binding may list several conversions)
+const c15hookOneBinding = `configVersion: v1
+kubernetesCustomResourceConversion:
+- name: up
+  crdName: crontabs.stable.example.com
+  conversions:
+  - fromVersion: v1
+    toVersion: v2
+  - fromVersion: v2
+    toVersion: v3
+`
+
+// another CRD with the same version names and another graph: v1 -> v3 in one step
+const c15hookJobs = `configVersion: v1
+kubernetesCustomResourceConversion:
+- name: jdirect
+  crdName: jobs.stable.example.com
+  conversions:
+  - fromVersion: v1
+    toVersion: v3
+`
+
 type c15step struct {
 	kind string // ok exit1 empty failedMessage wrong-count not-converted
 }
@@ -42,8 +64,12 @@ func c15obj(name, ver string, hops int) map[string]any {
 	return map[string]any{"apiVersion": "stable.example.com/" + ver, "kind": "CronTab", "metadata": map[string]any{"name": name}, "spec": map[string]any{"hops": hops}}
 }
 
-func c15run(steps []c15step) (sig, what, outcome string) {
-	fx := newFixture([]fxHook{{Name: "conv.sh", Config: c15hook}})
+func c15run(steps []c15step, oneBinding bool) (sig, what, outcome string) {
+	cfg, names := c15hook, []string{"up12", "up23"}
+	if oneBinding {
+		cfg, names = c15hookOneBinding, []string{"up", "up"}
+	}
+	fx := newFixture([]fxHook{{Name: "conv.sh", Config: cfg}, {Name: "jobs.sh", Config: c15hookJobs}})
 	defer fx.close()
 	defer func() {
 		if r := recover(); r != nil {
@@ -176,7 +202,7 @@ func c15run(steps []c15step) (sig, what, outcome string) {
 		}
 	}
 	desc := fmt.Sprintf("steps %v: hooks invoked %v, answer %s %q with %d objects", steps, seq, ans.Response.Result.Status, ans.Response.Result.Message, len(ans.Response.ConvertedObjects))
-	wantSeq := []string{"up12:v1->v2", "up23:v2->v3"}[:wantRuns]
+	wantSeq := []string{names[0] + ":v1->v2", names[1] + ":v2->v3"}[:wantRuns]
 	if len(seq) > wantRuns {
 		return "C15b step-after-failure kind=" + steps[firstFail].kind, desc, ""
 	}
@@ -209,6 +235,23 @@ func c15run(steps []c15step) (sig, what, outcome string) {
 				return "C15b wrong-version", desc, ""
 			}
 		}
+		// the same request for the other CRD is served by that CRD's own rules: one step, v1 -> v3
+		before := len(fx.Runs)
+		review["request"].(map[string]any)["uid"] = "conv-2"
+		body2, _ := json.Marshal(review)
+		req2 := httptest.NewRequest(http.MethodPost, "/jobs.stable.example.com", bytes.NewReader(body2))
+		req2.Header.Set("Content-Type", "application/json")
+		rec2 := httptest.NewRecorder()
+		fx.op.ConversionWebhookManager.Handler.Router.ServeHTTP(rec2, req2)
+		var seq2 []string
+		for _, r := range fx.Runs[before:] {
+			if len(r.Contexts) == 1 {
+				seq2 = append(seq2, fmt.Sprintf("%v:%v->%v", r.Contexts[0]["binding"], r.Contexts[0]["fromVersion"], r.Contexts[0]["toVersion"]))
+			}
+		}
+		if rec2.Code != http.StatusOK || !strings.Contains(rec2.Body.String(), `"Success"`) || strings.Join(seq2, ",") != "jdirect:v1->v3" {
+			return "C15b other-crd-served-with-foreign-rules", fmt.Sprintf("after crontabs v1->v3, jobs v1->v3 (declared: one rule v1->v3): hooks invoked %v, answer HTTP %d %s", seq2, rec2.Code, rec2.Body.String()), ""
+		}
 		return "", "", "Success"
 	}
 	if success {
@@ -228,25 +271,30 @@ func TestVerifC15b(t *testing.T) {
 	var ord int64
 	for _, k1 := range kinds {
 		for _, k2 := range kinds {
-			ord++
-			if !(vres.Mine(ord) || r.Replaying()) {
-				continue
+			for _, oneBinding := range []bool{false, true} {
+				ord++
+				if !(vres.Mine(ord) || r.Replaying()) {
+					continue
+				}
+				key := k1 + "," + k2
+				if oneBinding {
+					key += "|one-binding"
+				}
+				if !r.Want(key) {
+					continue
+				}
+				sig, what, outcome := c15run([]c15step{{k1}, {k2}}, oneBinding)
+				r.Eval(1)
+				r.Transition(2)
+				if sig != "" {
+					r.Violation(sig, key, what, nil)
+					r.Outcome("V:"+sig, true)
+					continue
+				}
+				r.State(key)
+				r.Outcome(outcome, k1 != "ok" || k2 != "ok")
+				r.Sample(map[string]any{"step_outcomes": key, "answer": outcome})
 			}
-			key := k1 + "," + k2
-			if !r.Want(key) {
-				continue
-			}
-			sig, what, outcome := c15run([]c15step{{k1}, {k2}})
-			r.Eval(1)
-			r.Transition(2)
-			if sig != "" {
-				r.Violation(sig, key, what, nil)
-				r.Outcome("V:"+sig, true)
-				continue
-			}
-			r.State(key)
-			r.Outcome(outcome, k1 != "ok" || k2 != "ok")
-			r.Sample(map[string]any{"step_outcomes": key, "answer": outcome})
 		}
 	}
 }
